@@ -44,8 +44,13 @@ def plan(tier, seed):
     sc = [s for s in catalog.scalars() if s["ck"] in ("pyint", "pyfloat", "pycomplex")]
     seeds_q = [L[n] for n in ["Hc22", "Sy22", "Sy22i", "Un22c", "St32", "D22c", "Dg2c", "I2", "P3", "H2c", "Sc2n",
                               "Sc2i", "Sc2h", "TL22", "R0"]]
+    # off-diagonal blocks / permuted index arrays of larger declared-self-adjoint parents
+    big = list(catalog.big_annotated_leaves().values())
+    offs = dict(seeds=big, operands=ops[:1], small=small, acts={"Annot", "Sliced", "anns"}, lvl=2, dim=5,
+                forms=catalog.offset_forms(), stride=1, ebound=40)
     if tier == "quick":
         return [
+            offs,
             dict(seeds=seeds, operands=ops, small=small, acts=ACTS, lvl=1, dim=6, forms=forms, stride=1, ebound=20),
             dict(seeds=seeds_q[:10], operands=ops[:5], small=small, acts=ACTS, lvl=2, dim=4, forms=forms, stride=5,
                  ebound=20),
@@ -55,6 +60,7 @@ def plan(tier, seed):
                  ebound=20),
         ]
     return [
+        offs,
         dict(seeds=seeds, operands=ops, small=small, acts=ACTS, lvl=2, dim=4, forms=forms, stride=1, ebound=20),
         dict(seeds=seeds, operands=ops, small=small, acts=ACTS | {"Sum3", "Product3", "Kronecker3"}, lvl=5, dim=4,
              forms=forms, stride=2, simulate=800, ebound=20),
